@@ -182,6 +182,23 @@ ROWS = {
   note='translator harness/translate/cli.py; getopt/int(s,0) modelled in Lean and tied to CPython by the run; "completes '
        'without a Python error" is observed per entry, not proved',
   tech='Lean 4 proof (decide +kernel over generated table; lookup/getopt lemmas) + translator + differential correspondence (CLI vs API)'),
+ 'C07': dict(
+  text='90 Lean theorems about per-operation models of 75 pyipmi.Ipmi operations (device id/GUID/watchdog, chassis and '
+       'boot options, LAN, users, sensors/events, PICMG LED/fan/port/power/activation, HPM status) played against a '
+       'byte-level reference BMC: for ALL in-range arguments and ALL conforming BMC states every write leaves exactly '
+       'the state the arguments denote and every read returns the BMC\'s current state for the addressed object '
+       '(channel, user, sensor+LUN, FRU, LED, port); by induction over ANY history the k-th result is the getter on '
+       'the state at that moment (history independence; state invariant preserved). Laws of the conversion tables '
+       'regenerated from the tree: boot device both directions against IPMI table 28-14, privilege, IP source, VLAN '
+       'round trip <= 4095, LED function coding. Hidden state of the IMPLEMENTATION (class-level lists, shared default '
+       'arguments, caches) is what the history correspondence over 1-3 connections and 1-2 BMC instances detects.',
+  note='translators harness/translate/tables.py and registry.py regenerate the tables, wrapper constants and message '
+       'layouts (as rewrite rules) each run; hand-written models Model/Api/*.lean (one exchange per operation) are tied '
+       'on every call of 1-30-call histories by request bytes, return value/exception and BMC state digest; reference '
+       'BMC Spec/Bmc.lean (permissive reading of IPMI 2.0 / PICMG 3.0 / HPM.1) is the oracle; executable hypothesis '
+       'checks wfB/inRangeB are proved sound and evaluated on every exercised (state, call) pair; `open` and operations '
+       'owned by other properties (SDR, SEL, FRU, HPM upgrade, DCMI, raw) are exercised-only or not exercised here',
+  tech='Lean 4 proof (symbolic evaluation of each exchange, induction over histories, decide +kernel over generated tables) + translators + closed-loop history correspondence against the Lean reference BMC'),
  'C08': dict(
   text='Lean theorems over small-step handler programs: for every operation of shape "checked" (skeleton regenerated '
        'from the AST of every public method) and for the retry/poll handlers, a non-OK completion code at any request '
@@ -194,7 +211,6 @@ ROWS = {
 }
 
 NOT_YET = {
- 'C07': 'check runs (real API against a Lean reference BMC, 30+ operations) but the refinement theorems are not finished; not claimed until they are',
 }
 
 ORDER = ['C%02d' % i for i in range(1, 21)]
